@@ -59,7 +59,10 @@ impl RecvRateSet {
             is_initial: false
         });
 
-        self.entries.retain(|e| now_ms - e.timestamp_ms < 2 * rtt_ms);
+        // Entries younger than two RTTs are kept. The entry just pushed always is: with an RTT
+        // estimate of zero milliseconds the window would otherwise be empty, and max() below
+        // would have nothing to return.
+        self.entries.retain(|e| now_ms - e.timestamp_ms < (2 * rtt_ms).max(1));
 
         return self.max();
     }
